@@ -67,7 +67,8 @@ def run(ctx):
             brk += 1
     ctx.ob('TYPESTATE', 'replace-with-Broken', len(repl) == 2 and brk == 2, short_loc(nx.span),
            '%d mem::replace(&mut self.reader_state, ..) call(s), %d of them with Broken' % (len(repl), brk))
-    tries = [(bb, t) for bb, t in nx.calls() if call_matches(t, ['Try>::branch', 'Try::branch'])]
+    # (a `?` applied to the result of an inlined helper on its Ok-returning path cannot fail: see core._thread_result_returns)
+    tries = [(bb, t) for bb, t in nx.calls() if call_matches(t, ['Try>::branch', 'Try::branch']) and t.get('threaded') != 'Ok']
     n = 0
     for bb, s in assigns:
         rv = s['rv']
